@@ -370,9 +370,24 @@ def rule_g2_g3(ck, prog, S):
             if isinstance(pol, tuple) or a.k != "BinaryOperator" or a.get("op") not in ("<", "<=", ">", ">=", "==", "!="):
                 continue
             l, r = a.child(0).strip_all_casts(), a.child(1).strip_all_casts()
+            while r.k == "ParenExpr":
+                r = r.child(0).strip_all_casts()
             if l.get("path") == "decpt":
                 rhs = r.get("path") if r.get("path") else C.const_of(r)
-                out.append((a["op"], rhs, pol))
+                op = a["op"]
+                # decpt < prec + 1  ==  decpt <= prec ; decpt <= prec - 1 == decpt < prec
+                if rhs is None and r.k == "BinaryOperator" and r.get("op") in ("+", "-") and r.child(0).strip_all_casts().get("path") == prec \
+                        and C.const_of(r.child(1)) is not None:
+                    k_ = C.const_of(r.child(1)) * (1 if r["op"] == "+" else -1)
+                    if k_ == 1 and op == "<":
+                        op, rhs = "<=", prec
+                    elif k_ == 1 and op == ">=":
+                        op, rhs = ">", prec
+                    elif k_ == -1 and op == "<=":
+                        op, rhs = "<", prec
+                    elif k_ == 0:
+                        rhs = prec
+                out.append((op, rhs, pol))
         return out
 
     def interval(facts):
@@ -448,7 +463,8 @@ def rule_g2_g3(ck, prog, S):
     if not okpad:
         probs.append("a one-digit exponent is not padded to two digits")
     # the exponent printed is decpt - 1: the scientific arm decrements decpt
-    dec = [n for n, t in C.stores(f) if t.get("path") == "decpt" and n.k == "UnaryOperator" and n.get("op") == "--"]
+    dec = [n for n, t in C.stores(f) if t.get("path") == "decpt" and ((n.k == "UnaryOperator" and n.get("op") == "--") or
+                                                                     (n.get("op") == "-=" and C.const_of(n.child(1)) == 1))]
     zer = [n for n, t in C.stores(f) if t.get("path") == "decpt" and n.get("op") == "=" and C.const_of(n.child(1)) == 0]
     if len(dec) != 1:
         probs.append("the scientific arm does not turn decpt into the exponent (decpt - 1)")
@@ -524,6 +540,11 @@ def trim_start(ck, prog, f, prec, ecvt_call, points):
     # the trim start: `base = &base[<idx>]` (or base += idx) at the join after the arms
     starts = [n for n, t in C.stores(f) if t.get("path") == base and n.get("op") == "=" and
               n.child(1).strip_all_casts().k == "UnaryOperator" and n.child(1).strip_all_casts().get("op") == "&"]
+    if not starts:
+        # the same cursor move written as `s += <index>` after the notation arms have joined
+        arm_blocks = {f.where[pt.id][0].id for pt in points if pt.id in f.where}
+        starts = [n for n, t in C.stores(f) if t.get("path") == base and n.get("op") == "+=" and f.where.get(n.id, (None,))[0] is not None
+                  and f.where[n.id][0].id not in arm_blocks and any(x.get("path") == prec for x in n.child(1).walk())]
     if not base or not starts:
         ck.undecided("C16-G3", st, K.loc(f), "trim start `%s = &%s[...]` not found" % (base, base))
         return
@@ -555,9 +576,12 @@ def trim_start(ck, prog, f, prec, ecvt_call, points):
         if last is None:
             continue
         arms_seen += 1
-        idx = starts[0].child(1).strip_all_casts().child(0).strip_all_casts()
         env2 = dict(env)
-        start = lin(idx.child(1), env2)
+        if starts[0].get("op") == "+=":
+            start = lin(starts[0].child(1), env2)
+        else:
+            idx = starts[0].child(1).strip_all_casts().child(0).strip_all_casts()
+            start = lin(idx.child(1), env2)
         if start is None:
             ck.undecided("C16-G3", st, K.loc(f, starts[0]), "trim start index not linear")
             return
